@@ -4,7 +4,7 @@ import Starcal.Greg
 /-! Starcal.SrcExt: functions the source translator does not read and maps to hand-written definitions
     (tied to the code by the correspondence check only):
     * `lib.NewDate` (a constructor);
-    * `utils.BisectLeft` (a closure handed to `sort.Search`: the model of Bisect.lean);
+    * `sort.Search` (Go's standard library: its binary search, transcribed; `utils.BisectLeft` itself is translated);
     * `sort.Sort` by a translated `Less` (`sortWith`);
     * the gregorian calendar, which in this library *is* Go's `time` package (the model of Greg.lean). -/
 namespace Starcal.SrcExt
@@ -16,8 +16,18 @@ def lib_NewDate (y m d : Int) : Option GoSem.Date := some ⟨y, m, d⟩
 /-- lib.NewHMS (hms.go) -/
 def lib_NewHMS (h m s : Int) : Option GoSem.HMS := some ⟨h, m, s⟩
 
-/-- utils.BisectLeft (funcs.go) -/
-def utils_BisectLeft (a : List Int) (v : Int) : Option Int := some (bisectLeft a v : Nat)
+/-- `sort.Search(n, f)`: the binary search of Go's standard library, transcribed —
+    `i, j := 0, n; for i < j { h := int(uint(i+j) >> 1); if !f(h) { i = h + 1 } else { j = h } }; return i`
+    (the fuel n + 1 exceeds the number of iterations, ⌈log₂ n⌉ + 1; a closure that panics makes the search panic) -/
+def searchM (f : Int → Option Bool) : Nat → Int → Int → Option Int
+  | 0, i, _ => some i
+  | fuel + 1, i, j =>
+    if i < j then do
+      let h := (i + j) / 2
+      if !(← f h) then searchM f fuel (h + 1) j else searchM f fuel i h
+    else some i
+
+def sort_Search (n : Int) (f : Int → Option Bool) : Option Int := searchM f (n.toNat + 1) 0 n
 
 /-- gregorian.IsLeap -/
 def gregorian_IsLeap (y : Int) : Option Bool := some (gIsLeap y)
